@@ -34,6 +34,24 @@ def gen(binp, seed, n):
             rng.shuffle(tvs)
             cases.append({"kind": "header" if base.get("header") else "param",
                           "simple": {k: v for k, v in base.items() if k not in ("id", "val")}, "typed": tvs})
+    # nested arrays through long-lived parameter / header validators: rows of different lengths (empty ones too), offending
+    # cells at different positions from call to call - anything a validator remembers about an element shows in the names
+    def cell(bad):
+        return {"k": "string", "v": "toolong" if bad else "ok"}
+
+    def matrix(depth):
+        if depth == 0:
+            return cell(rng.random() < 0.35)
+        return {"k": "slice", "e": "iface", "l": [matrix(depth - 1) for _ in range(rng.randint(0, 3))]}
+
+    for i in range(max(4, n // 12)):
+        depth = rng.choice([2, 2, 3])
+        d = {"type": "string", "maxLength": 2}
+        for _ in range(depth):
+            d = {"type": "array", "items": d}
+        header = rng.random() < 0.3
+        simple = {"header": True, "name": "X-M", "def": d} if header else {"def": dict(d, name="matrix", **{"in": "query"})}
+        cases.append({"kind": "header" if header else "param", "simple": simple, "typed": [matrix(depth) for _ in range(rng.randint(3, 9))]})
     for i, c in enumerate(cases):
         c["id"] = i
     return cases
